@@ -225,6 +225,18 @@ example : accepted "g" ⟨true, 0, false, "d", "x"⟩ defaults
 example : accepted "g" ⟨true, 0, false, "d", "x"⟩ defaults
     (.updCs "g" ⟨some 1000000000000000000, "stake", some 0, some 0, some 1, []⟩) = false := by decide
 
+/-- non-vacuity of the erc20 / inflation / onboarding forms: accepted updates at range edges
+(`R = 1`, `BondingTarget = 1`, shares `(0, 1)`; threshold 0 with an empty channel list) -/
+example : accepted "g" ⟨true, 0, false, "d", "x"⟩ defaults (.updErc "g" ⟨false, true⟩) = true := by decide
+example : accepted "g" ⟨true, 0, false, "d", "x"⟩ defaults
+    (.updInf "g" ⟨"abc", some 0, some 1000000000000000000, some 0, some 1000000000000000000, some 0, some 0, some 1000000000000000000, true⟩) = true := by
+  decide
+example : accepted "g" ⟨true, 0, false, "d", "x"⟩ defaults
+    (.updInf "g" ⟨"abc", some 0, some 1000000000000000001, some 0, some 1000000000000000000, some 0, some 0, some 1000000000000000000, true⟩) = false := by
+  decide
+example : accepted "g" ⟨true, 0, false, "d", "x"⟩ defaults (.updOnb "g" ⟨false, some 0, []⟩) = true := by decide
+example : accepted "g" ⟨true, 0, false, "d", "x"⟩ defaults (.updOnb "g" ⟨false, none, []⟩) = false := by decide
+
 /-! ## stored parameters stay valid -/
 
 /-- the registration and govshuttle messages and the legacy route never touch … -/
